@@ -33,7 +33,8 @@ def analyse(ck, job, res, cfg, ps, stats, cases, deny_tag):
         prev = tr[i - 1] if i > 0 else {}
         dominated = (prev.get("c") == "statx" and prev.get("fd") == ev["fd"] and prev.get("path") == ev["path"]
                      and prev.get("ret", -1) >= 0)
-        if k not in FOLLOW_OK_KINDS or not dominated:
+        asked_nofollow = k == "proc_open" and (not job["op"].get("follow") or job["op"]["flags"] & M.O_NOFOLLOW)
+        if k not in FOLLOW_OK_KINDS or not dominated or asked_nofollow:
             ck.violation("C05: openat without O_NOFOLLOW outside the two verified procfs follow sites",
                          {"job": J.describe(job), "deny": deny_tag, "index": i, "call": ev, "prev": prev})
             return
